@@ -7,6 +7,7 @@ import RichchkModel.Generated.Layouts
 import RichchkModel.Spec.Layouts
 import RichchkModel.Generated.Codecs
 import RichchkModel.Generated.TrigTable
+import RichchkModel.Model.StrEdit
 open Richchk
 
 def showR {α} (f : α → String) : R α → String
@@ -116,6 +117,36 @@ def opHpEnc (numStr denStr : String) : String :=
   | some num, some den => if den = 0 then "bad-op" else toString (num * Generated.hpEncodeMultiplier / den)
   | _, _ => "bad-op"
 
+def parseNatList (s : String) : Option (List Nat) :=
+  if s = "=" then some [] else (s.splitOn ",").mapM (·.toNat?)
+def parseHexList (s : String) : Option (List Bytes) :=
+  if s = "=" then some [] else (s.splitOn ",").mapM bytesOfHex
+
+def dumpTable (t : StrTable) : String :=
+  toString t.w ++ " " ++ toString t.n ++ " " ++ natList t.offs ++ " [" ++ ",".intercalate (t.strs.map hexOfBytes) ++ "]"
+
+def dumpIds (t : StrTable) : String :=
+  "{" ++ ",".intercalate ((List.range t.offs.length).map fun i =>
+    match resolveId t (i + 1) with
+    | some b => hexOfBytes b
+    | none => "!") ++ "}"
+
+/-- addstr w n offs strs req : table after adding, and every id resolved independently -/
+def opAddStr (w n offs strs req : String) : String :=
+  match w.toNat?, n.toNat?, parseNatList offs, parseHexList strs, parseHexList req with
+  | some w, some n, some offs, some strs, some req =>
+    match addStrings req ⟨w, n, offs, strs⟩ with
+    | .error e => "ERR " ++ toString e
+    | .ok t' => "OK " ++ dumpTable t' ++ " " ++ dumpIds t'
+  | _, _, _, _, _ => "bad-op"
+
+def opToStrx (n offs strs : String) : String :=
+  match n.toNat?, parseNatList offs, parseHexList strs with
+  | some n, some offs, some strs =>
+    let t' := toStrx ⟨2, n, offs, strs⟩
+    "OK " ++ dumpTable t' ++ " " ++ dumpIds t'
+  | _, _, _ => "bad-op"
+
 def opTrigRow (kind idStr : String) : String :=
   match idStr.toNat? with
   | some n =>
@@ -135,6 +166,8 @@ def step (line : String) : String :=
   | ["spec-layouts"] => jsonTable Spec.specTable
   | ["flags", nm, n] => opFlags nm n
   | ["trigrow", k, n] => opTrigRow k n
+  | ["addstr", w, n, o, st, rq] => opAddStr w n o st rq
+  | ["tostrx", n, o, st] => opToStrx n o st
   | ["trigids", k] => toString ((if k = "a" then Generated.actionTable else Generated.conditionTable).map (·.id))
   | ["flagsenc", nm, b] => opFlagsEnc nm b
   | ["enum", nm, n] => opEnum nm n
